@@ -557,25 +557,42 @@ func c38Clip(s string, n int) string {
 	return s
 }
 
-// c38KeyAtLine finds the v2 group/key whose (uncommented) line is the nearest
-// at or above the given 1-based line of the emitted YAML.
-func c38KeyAtLine(out string, line int) (group, key string) {
+// c38KeysNearLine returns the v2 "Group.Key" names of the uncommented key lines
+// closest to the given 1-based line of the emitted YAML: the three above it
+// and the one below.
+func c38KeysNearLine(out string, line int) map[string]bool {
 	lines := strings.Split(out, "\n")
-	if line > len(lines) {
-		line = len(lines)
-	}
 	reKey := regexp.MustCompile(`^    ([A-Za-z][A-Za-z0-9]*):`)
-	for i := line - 1; i >= 0; i-- {
-		if key == "" {
-			if m := reKey.FindStringSubmatch(lines[i]); m != nil {
-				key = m[1]
-			}
+	type kl struct {
+		name string
+		line int
+	}
+	var keys []kl
+	group := ""
+	for i, l := range lines {
+		if m := c38ReGroup.FindStringSubmatch(l); m != nil {
+			group = m[1]
+			continue
 		}
-		if m := c38ReGroup.FindStringSubmatch(lines[i]); m != nil {
-			return m[1], key
+		if m := reKey.FindStringSubmatch(l); m != nil {
+			keys = append(keys, kl{group + "." + m[1], i + 1})
 		}
 	}
-	return "", key
+	near := map[string]bool{}
+	above := 0
+	for i := len(keys) - 1; i >= 0; i-- {
+		if keys[i].line <= line && above < 3 {
+			near[keys[i].name] = true
+			above++
+		}
+	}
+	for _, k := range keys {
+		if k.line > line {
+			near[k.name] = true
+			break
+		}
+	}
+	return near
 }
 
 // targets of a setting: the v2 "Group.Key" names it feeds
@@ -771,16 +788,31 @@ func execC38Config(c c38Case, res *vkit.Result) {
 				res.Violate(fmt.Sprintf("C38/config/%s/unattributed/v2-load-error", c.Format), "the v2 loader rejects the converted file and no single setting reproduces it: %s", strings.Join(unattributed, "; "))
 			}
 		case "output-not-yaml":
-			g, k := c38KeyAtLine(pr.Run.Out, pr.YAMLLine)
+			// YAML error positions are imprecise (an unterminated flow sequence is reported
+			// lines later): take the keys around the reported line as suspects and confirm
+			// each by running it alone; fall back to running every setting alone.
+			near := c38KeysNearLine(pr.Run.Out, pr.YAMLLine)
 			var hinted []c38Set
 			for _, st := range remaining {
 				for _, tg := range c38Targets(tab.ByPath[st.Path]) {
-					if tg == g+"."+k {
+					if near[tg] {
 						hinted = append(hinted, st)
+						break
 					}
 				}
 			}
-			attribute(pr, hinted)
+			if len(remaining) == 1 {
+				blame(remaining[0].Path, pr.Verdict, pr.Detail)
+			} else {
+				found := isolate(hinted)
+				if len(found) == 0 {
+					found = isolate(remaining)
+				}
+				blameAll(found)
+			}
+			if len(culprits) == 0 {
+				res.Violate(fmt.Sprintf("C38/config/%s/unattributed/%s", c.Format, pr.Verdict), "%s (no single setting reproduces it)", pr.Detail)
+			}
 		case "template-not-rendered":
 			// the output names what it threw away: "# - <v1 path> (deprecated in ...)"
 			var hinted []c38Set
